@@ -10,7 +10,7 @@ const STREAM_TL: u64 = 1;
 const STREAM_ANIM: u64 = 2;
 
 pub fn run(run: &mut Run) {
-    run.rule = "derive timelines over 7 shapes (two with fields lacking #[animate]), sparse keyframe sets where properties \
+    run.rule = "derive timelines over 8 shapes (three with fields lacking #[animate], one of them a remote proxy), sparse keyframe sets where properties \
         have no keyframe, empty timelines, merged timelines and state animators; every target field is pre-filled with a \
         random bit pattern (NaN payloads included) and compared bit-for-bit after update at times from every phase \
         (before start, active, later cycles, reverse pass, ended); in animator histories every field the current state's \
